@@ -19,6 +19,9 @@ int cmd_time_replay(const Args&);
 int cmd_eval_mirror(const Args&);
 int cmd_eval_pure(const Args&);
 int cmd_eval_cache_replay(const Args&);
+int cmd_search_runs(const Args&);
+int cmd_schedules(const Args&);
+int cmd_pool(const Args&);
 }
 
 #ifdef VH_EXTRA_DECLS
@@ -48,5 +51,8 @@ int main(int argc, char** argv)
     if (cmd == "eval-mirror") return vh::cmd_eval_mirror(a);
     if (cmd == "eval-pure") return vh::cmd_eval_pure(a);
     if (cmd == "eval-cache-replay") return vh::cmd_eval_cache_replay(a);
+    if (cmd == "search-runs") return vh::cmd_search_runs(a);
+    if (cmd == "schedules") return vh::cmd_schedules(a);
+    if (cmd == "pool") return vh::cmd_pool(a);
     return vh_dispatch_extra(cmd, a);
 }
